@@ -80,6 +80,7 @@ var sessFamilies = map[string]SessFamily{
 	"reset":       {"reset", "MC_SessReset", []string{"C05", "C07"}, false},
 	"echo":        {"echo", "MC_SessEcho", []string{"C08"}, false},
 	"refresh":     {"refresh", "MC_SessRefresh", []string{"C09"}, false},
+	"lifecycle":   {"lifecycle", "MC_Lifecycle", []string{"C08", "C09"}, false},
 	"badfrom":     {"badfrom", "MC_SessBadFrom", []string{"C06"}, false},
 	"badto":       {"badto", "MC_SessBadTo", []string{"C06"}, false},
 	"genmap":      {"genmap", "MC_GenMap", []string{"C01", "C02"}, false},
